@@ -17,3 +17,1029 @@ Definition orders_ok : bool :=
 
 Lemma hc_orders_ok : orders_ok = true.
 Proof. vm_compute. reflexivity. Qed.
+
+(* ================= constants and regenerated formulas ================= *)
+Lemma busy_val : cBUSY = -127. Proof. reflexivity. Qed.
+Lemma cas_expected_val : cas_expected = EMPTY_CONTROL. Proof. reflexivity. Qed.
+Lemma cas_desired_val : cas_desired = cBUSY. Proof. reflexivity. Qed.
+Lemma store_primary_id c : store_primary c = c. Proof. reflexivity. Qed.
+Lemma store_mirror_id c : store_mirror c = c. Proof. reflexivity. Qed.
+Lemma saw_dummy_iff c : cas_saw_dummy c = true <-> c = DUMMY_CONTROL.
+Proof. unfold cas_saw_dummy. rewrite Z.eqb_eq. reflexivity. Qed.
+Lemma null_1 : next_is_null 1 = false. Proof. reflexivity. Qed.
+Lemma null_0 : next_is_null 0 = true. Proof. reflexivity. Qed.
+Lemma step_inc_pos : 0 < emp_step_inc. Proof. reflexivity. Qed.
+
+(* find and do_emplace probe the same positions with the same tag *)
+Lemma sel_index_eq isf b o m : sel_index isf b o m = Z.land (b + o) m.
+Proof. destruct isf; reflexivity. Qed.
+Lemma sel_step_inc_eq isf : sel_step_inc isf = emp_step_inc.
+Proof. destruct isf; reflexivity. Qed.
+Lemma sel_next_base_eq isf b s m : sel_next_base isf b s m = emp_next_base b s m.
+Proof. destruct isf; reflexivity. Qed.
+Lemma sel_loop_cond_eq isf s m : sel_loop_cond isf s m = emp_loop_cond s m.
+Proof. destruct isf; reflexivity. Qed.
+Lemma sel_checker_eq isf h : sel_checker isf h = emp_checker h.
+Proof. destruct isf; reflexivity. Qed.
+Lemma sel_base0_eq isf h m : sel_base0 isf h m = emp_base0 h m.
+Proof. destruct isf; reflexivity. Qed.
+Lemma insert_index_eq b o m : emp_insert_index b o m = Z.land (b + o) m.
+Proof. reflexivity. Qed.
+
+Lemma checker_rng h : 0 <= emp_checker h < 128.
+Proof. unfold emp_checker. change CHECKER_MASK with (2 ^ 7 - 1). rewrite land_mask by lia. apply Z.mod_pos_bound. lia. Qed.
+
+(* ================= lists ================= *)
+Lemma nth_error_set_nth_eq {A} (l : list A) n x : (n < length l)%nat -> nth_error (set_nth n x l) n = Some x.
+Proof. revert n; induction l as [|y l IH]; intros [|n] H; simpl in *; try lia; auto. apply IH. lia. Qed.
+Lemma nth_error_set_nth_ne {A} (l : list A) n m x : n <> m -> nth_error (set_nth n x l) m = nth_error l m.
+Proof. revert n m; induction l as [|y l IH]; intros [|n] [|m] H; simpl; auto; try lia. Qed.
+Lemma length_set_nth {A} (l : list A) n x : length (set_nth n x l) = length l.
+Proof. revert n; induction l as [|y l IH]; intros [|n]; simpl; auto. Qed.
+Lemma nth_error_set_nth {A} (l : list A) n m x y : nth_error l n = Some y ->
+  nth_error (set_nth n x l) m = if Nat.eqb n m then Some x else nth_error l m.
+Proof.
+  intros H. destruct (Nat.eqb n m) eqn:E.
+  - apply Nat.eqb_eq in E. subst. apply nth_error_set_nth_eq. apply nth_error_Some. congruence.
+  - apply Nat.eqb_neq in E. apply nth_error_set_nth_ne; auto.
+Qed.
+
+Lemma upd_eq {A} (f : Z -> A) i x : upd f i x i = x.
+Proof. unfold upd. now rewrite Z.eqb_refl. Qed.
+Lemma upd_ne {A} (f : Z -> A) i j x : j <> i -> upd f i x j = f j.
+Proof. unfold upd. intros. destruct (j =? i) eqn:E; auto. apply Z.eqb_eq in E. lia. Qed.
+
+Lemma gget_gload t b o : In o offsets -> gget (gload t b) o = cctrl t (b + o).
+Proof.
+  intros H. rewrite offsets_eq in H. unfold gget, gload. rewrite offsets_eq.
+  simpl in H. repeat (destruct H as [<-|H]; [reflexivity|]). destruct H.
+Qed.
+
+Lemma cands_in g c o : In o (cands g c) <-> In o offsets /\ gget g o = c.
+Proof. unfold cands. rewrite filter_In, Z.eqb_eq. reflexivity. Qed.
+
+Lemma first_empty_g_some g o : first_empty_g g = Some o ->
+  In o offsets /\ gget g o < 0 /\ forall o', In o' offsets -> o' < o -> 0 <= gget g o'.
+Proof.
+  unfold first_empty_g. rewrite offsets_eq. simpl. intros H.
+  repeat match type of H with
+         | (if ?c then _ else _) = _ => let E := fresh "E" in destruct c eqn:E; [inversion H; clear H|]
+         end; try discriminate; subst;
+  (split; [tauto|]; split; [lia|]; intros o' Ho' Hlt; repeat (destruct Ho' as [<-|Ho']; [lia|]); destruct Ho').
+Qed.
+
+Lemma first_empty_g_none g : first_empty_g g = None -> forall o, In o offsets -> 0 <= gget g o.
+Proof.
+  unfold first_empty_g. intros H o Ho. pose proof (find_none _ _ H o Ho) as E. simpl in E. lia.
+Qed.
+
+Section Proofs.
+Variable hash : Z -> Z.
+
+Definition chk (k : Z) : Z := emp_checker (hash k).
+
+(* the probe sequence of a key in a table: (group base, step) of the j-th round of the while loop *)
+Fixpoint pseq (m b0 : Z) (j : nat) : Z * Z :=
+  match j with
+  | O => (b0, 0)
+  | S j' => let s' := snd (pseq m b0 j') + emp_step_inc in (emp_next_base (fst (pseq m b0 j')) s' m, s')
+  end.
+Definition pb (t : ctab) (k : Z) (j : nat) : Z := fst (pseq (cmask t) (emp_base0 (hash k) (cmask t)) j).
+Definition ps (t : ctab) (k : Z) (j : nat) : Z := snd (pseq (cmask t) (emp_base0 (hash k) (cmask t)) j).
+
+Lemma ps_S t k j : ps t k (S j) = ps t k j + emp_step_inc. Proof. reflexivity. Qed.
+Lemma pb_S t k j : pb t k (S j) = emp_next_base (pb t k j) (ps t k j + emp_step_inc) (cmask t). Proof. reflexivity. Qed.
+Lemma ps_mono t k j j' : (j <= j')%nat -> ps t k j <= ps t k j'.
+Proof. induction 1; [lia|]. rewrite ps_S. pose proof step_inc_pos. lia. Qed.
+Lemma pb_mask t t' k j : cmask t' = cmask t -> pb t' k j = pb t k j.
+Proof. unfold pb. intros ->. reflexivity. Qed.
+Lemma ps_mask t t' k j : cmask t' = cmask t -> ps t' k j = ps t k j.
+Proof. unfold ps. intros ->. reflexivity. Qed.
+
+Definition lidx (t : ctab) (p : Z) : Z := Z.land p (cmask t).
+Lemma lidx_idem t p : lidx t (lidx t p) = lidx t p.
+Proof. unfold lidx. rewrite <- Z.land_assoc, Z.land_diag. reflexivity. Qed.
+
+(* position p of table t has been passed by a probe for key k: published, constructed, other key *)
+Definition keyne (t : ctab) (k p : Z) : Prop :=
+  0 <= cctrl t p /\ exists e, cvals t (lidx t p) = Some e /\ fst e <> k.
+Definition grp_passed (t : ctab) (k : Z) (j : nat) : Prop := forall o, In o offsets -> keyne t k (pb t k j + o).
+Definition tab_passed (t : ctab) (k : Z) : Prop :=
+  cdummy t = true \/ forall j, emp_loop_cond (ps t k j) (cmask t) = true -> grp_passed t k j.
+Definition passed_upto (tb : list ctab) (k : Z) (n : nat) : Prop :=
+  forall n' t', (n' <= n)%nat -> nth_error tb n' = Some t' -> tab_passed t' k.
+(* everything the probe for k looks at before offset o of group j of table n *)
+Definition before (tb : list ctab) (k : Z) (n j : nat) (o : Z) : Prop :=
+  (forall n' t', (n' < n)%nat -> nth_error tb n' = Some t' -> tab_passed t' k) /\
+  (forall t, nth_error tb n = Some t ->
+     (forall j', (j' < j)%nat -> grp_passed t k j') /\
+     (forall o', In o' offsets -> o' < o -> keyne t k (pb t k j + o'))).
+
+(* monotone extension of the memory: tags, constructed values and claims never change *)
+Definition text (t t' : ctab) : Prop :=
+  cdummy t' = cdummy t /\ cmask t' = cmask t /\
+  (forall p, 0 <= cctrl t p -> cctrl t' p = cctrl t p) /\
+  (forall i e, cvals t i = Some e -> cvals t' i = Some e) /\
+  (forall i w, cown t i = Some w -> cown t' i = Some w) /\
+  (forall p, cctrl t p = cBUSY -> cctrl t' p = cBUSY \/ 0 <= cctrl t' p).
+Definition lext (tb tb' : list ctab) : Prop :=
+  forall n t, nth_error tb n = Some t -> exists t', nth_error tb' n = Some t' /\ text t t'.
+
+Lemma text_refl t : text t t.
+Proof. repeat split; auto. Qed.
+Lemma text_trans a b c : text a b -> text b c -> text a c.
+Proof.
+  intros (A1 & A2 & A3 & A4 & A5 & A6) (B1 & B2 & B3 & B4 & B5 & B6). repeat split; try congruence.
+  - intros p Hp. rewrite B3; rewrite A3; auto.
+  - intros. auto.
+  - intros. auto.
+  - intros p Hp. destruct (A6 _ Hp) as [E|E]; [apply B6; auto|]. right. rewrite B3; auto.
+Qed.
+Lemma lext_refl tb : lext tb tb.
+Proof. intros n t H. exists t. split; auto. apply text_refl. Qed.
+Lemma lext_trans a b c : lext a b -> lext b c -> lext a c.
+Proof.
+  intros H1 H2 n t Hn. destruct (H1 _ _ Hn) as (t' & Hn' & T1). destruct (H2 _ _ Hn') as (t'' & Hn'' & T2).
+  exists t''. split; auto. eapply text_trans; eauto.
+Qed.
+Lemma lext_set tb n tn tn' : nth_error tb n = Some tn -> text tn tn' -> lext tb (set_nth n tn' tb).
+Proof.
+  intros Hn T m t Hm. rewrite (nth_error_set_nth _ _ _ _ _ Hn). destruct (Nat.eqb n m) eqn:E.
+  - apply Nat.eqb_eq in E. subst m. rewrite Hn in Hm. inversion Hm; subst. eauto.
+  - exists t. split; auto. apply text_refl.
+Qed.
+Lemma lext_app tb x : lext tb (tb ++ [x]).
+Proof.
+  intros n t Hn. exists t. split; [|apply text_refl]. rewrite nth_error_app1; auto. apply nth_error_Some. congruence.
+Qed.
+
+Lemma keyne_ext t t' k p : text t t' -> keyne t k p -> keyne t' k p.
+Proof.
+  intros (A1 & A2 & A3 & A4 & A5) (H1 & e & H2 & H3). split.
+  - rewrite A3; auto.
+  - exists e. unfold lidx in *. rewrite A2. split; auto.
+Qed.
+Lemma grp_passed_ext t t' k j : text t t' -> grp_passed t k j -> grp_passed t' k j.
+Proof.
+  intros T H o Ho. rewrite (pb_mask t t') by apply T. eapply keyne_ext; eauto.
+Qed.
+Lemma tab_passed_ext t t' k : text t t' -> tab_passed t k -> tab_passed t' k.
+Proof.
+  intros T [H|H]; [left; destruct T as (-> & _); auto|].
+  right. intros j Hj. eapply grp_passed_ext; eauto. apply H.
+  destruct T as (_ & A2 & _). rewrite <- (ps_mask t t') by auto. rewrite <- A2. exact Hj.
+Qed.
+Lemma nth_lext tb tb' n t' : lext tb tb' -> (n < length tb)%nat -> nth_error tb' n = Some t' ->
+  exists t, nth_error tb n = Some t /\ text t t'.
+Proof.
+  intros L Hn H'. destruct (nth_error tb n) as [t|] eqn:E; [|apply nth_error_None in E; lia].
+  destruct (L _ _ E) as (t2 & E2 & T). rewrite H' in E2. inversion E2; subst. eauto.
+Qed.
+Lemma passed_upto_ext tb tb' k n : lext tb tb' -> (n < length tb)%nat -> passed_upto tb k n -> passed_upto tb' k n.
+Proof.
+  intros L Hn H n' t' Hle Hn'. destruct (nth_lext _ _ n' _ L ltac:(lia) Hn') as (t & Ht & T).
+  eapply tab_passed_ext; eauto.
+Qed.
+Lemma before_ext tb tb' k n j o : lext tb tb' -> (n < length tb)%nat -> before tb k n j o -> before tb' k n j o.
+Proof.
+  intros L Hn (H1 & H2). split.
+  - intros n' t' Hlt Hn'. destruct (nth_lext _ _ n' _ L ltac:(lia) Hn') as (t & Ht & T).
+    eapply tab_passed_ext; eauto.
+  - intros t' Hn'. destruct (nth_lext _ _ n _ L Hn Hn') as (t & Ht & T). destruct (H2 _ Ht) as (G1 & G2). split.
+    + intros j' Hj'. eapply grp_passed_ext; eauto.
+    + intros o' Ho' Hlt. rewrite (pb_mask t t') by apply T. eapply keyne_ext; eauto.
+Qed.
+Lemma before_start tb k n : passed_upto tb k n -> before tb k (S n) 0 0.
+Proof.
+  intros H. split.
+  - intros n' t' Hlt. apply H. lia.
+  - intros t _. split; [intros; lia|]. intros o' Ho'. apply in_offsets in Ho'. lia.
+Qed.
+Lemma before_first tb k : before tb k 0 0 0.
+Proof.
+  split; [intros; lia|]. intros t _. split; [intros; lia|]. intros o' Ho'. apply in_offsets in Ho'. lia.
+Qed.
+
+(* ================= invariants ================= *)
+Definition cur_op (th : thread) : option op := nth_error (prog th) (opi th).
+
+Definition at_group (tb : list ctab) (k : Z) (n j : nat) (stp base : Z) (tn : ctab) : Prop :=
+  nth_error tb n = Some tn /\ base = pb tn k j /\ stp = ps tn k j /\ emp_loop_cond stp (cmask tn) = true.
+
+Definition snap (tn : ctab) (base : Z) (g : list Z) : Prop :=
+  forall o, In o offsets -> 0 <= gget g o -> cctrl tn (base + o) = gget g o.
+
+Definition owns (tb : list ctab) (t : nat) (th : thread) (k : Z) (n : nat) (idx pos : Z) (tn : ctab) (j : nat) (o : Z) : Prop :=
+  nth_error tb n = Some tn /\ cown tn idx = Some (k, j, o, t, opi th) /\ pos = pb tn k j + o.
+
+Definition TInv (tb : list ctab) (gr : bool) (t : nat) (th : thread) : Prop :=
+  match tpc th with
+  | Idle => True
+  | PLoad n j stp base => exists o tn, cur_op th = Some o /\
+      at_group tb (okey o) n j stp base tn /\ (is_find o = false -> before tb (okey o) n j 0)
+  | PCmp n j stp base g cs => exists o tn, cur_op th = Some o /\
+      at_group tb (okey o) n j stp base tn /\ (is_find o = false -> before tb (okey o) n j 0) /\ snap tn base g /\ cs <> [] /\
+      (forall c, In c cs -> In c offsets /\ gget g c = chk (okey o)) /\
+      (forall c, In c offsets -> gget g c = chk (okey o) -> In c cs \/ keyne tn (okey o) (base + c))
+  | PCas n j stp base c => exists o tn, cur_op th = Some o /\ is_find o = false /\
+      at_group tb (okey o) n j stp base tn /\ before tb (okey o) n j c /\ In c offsets
+  | PCons n idx pos => exists k v tn j o, cur_op th = Some (OEmp k v) /\ owns tb t th k n idx pos tn j o /\
+      cvals tn idx = None
+  | PStore1 n idx pos => exists k v tn j o, cur_op th = Some (OEmp k v) /\ owns tb t th k n idx pos tn j o /\
+      cvals tn idx = Some (k, v)
+  | PStore2 n idx pos => exists k v tn j o, cur_op th = Some (OEmp k v) /\ owns tb t th k n idx pos tn j o /\
+      cvals tn idx = Some (k, v) /\ cctrl tn idx = chk k
+  | PSize n idx pos => exists k v tn j o, cur_op th = Some (OEmp k v) /\ owns tb t th k n idx pos tn j o /\
+      cvals tn idx = Some (k, v) /\ cctrl tn idx = chk k /\ cctrl tn pos = chk k
+  | PNext n => exists o, cur_op th = Some o /\ (n < length tb)%nat /\ (is_find o = false -> passed_upto tb (okey o) n)
+  | PNextCas n => exists o, cur_op th = Some o /\ is_find o = false /\ gr = true /\ (n < length tb)%nat /\
+      passed_upto tb (okey o) n
+  end.
+
+Record TabInv (tb : list ctab) (n : nat) (tn : ctab) : Prop := {
+  ti_pow : pow2 (cbcount tn);
+  ti_dummy : cdummy tn = true -> forall p, cctrl tn p = DUMMY_CONTROL /\ cown tn p = None /\ cvals tn p = None;
+  ti_dom : cdummy tn = false -> forall p, cctrl tn p = EMPTY_CONTROL \/ cctrl tn p = cBUSY \/ 0 <= cctrl tn p;
+  ti_pub : forall p, 0 <= cctrl tn p -> exists k j o tid opn v,
+             cown tn (lidx tn p) = Some (k, j, o, tid, opn) /\ cvals tn (lidx tn p) = Some (k, v) /\ cctrl tn p = chk k;
+  ti_own : forall i k j o tid opn, cown tn i = Some (k, j, o, tid, opn) ->
+             In o offsets /\ i = lidx tn (pb tn k j + o) /\ emp_loop_cond (ps tn k j) (cmask tn) = true /\
+             before tb k n j o /\ (cctrl tn i = cBUSY \/ cctrl tn i = chk k) /\
+             (cvals tn i = None \/ exists v, cvals tn i = Some (k, v));
+  ti_val : forall i e, cvals tn i = Some e -> exists j o tid opn, cown tn i = Some (fst e, j, o, tid, opn)
+}.
+
+Definition Uniq (tb : list ctab) : Prop := forall n1 t1 i1 n2 t2 i2 k j1 o1 a1 b1 j2 o2 a2 b2,
+  nth_error tb n1 = Some t1 -> nth_error tb n2 = Some t2 ->
+  cown t1 i1 = Some (k, j1, o1, a1, b1) -> cown t2 i2 = Some (k, j2, o2, a2, b2) -> n1 = n2 /\ i1 = i2.
+
+Record Inv (s : st) : Prop := {
+  inv_tab : forall n tn, nth_error (tabs s) n = Some tn -> TabInv (tabs s) n tn;
+  inv_thr : forall t th, nth_error (threads s) t = Some th -> TInv (tabs s) (grow s) t th;
+  inv_uniq : Uniq (tabs s);
+  inv_ne : tabs s <> [];
+  inv_bad : bad_read s = false;
+  inv_dbl : dbl_cons s = false
+}.
+
+Lemma chk_rng k : 0 <= chk k < 128. Proof. apply checker_rng. Qed.
+
+(* lexicographic order on probe positions (table, group, offset) *)
+Definition lexlt (a b : nat * nat * Z) : Prop :=
+  let '(n1, j1, o1) := a in let '(n2, j2, o2) := b in
+  (n1 < n2)%nat \/ (n1 = n2 /\ ((j1 < j2)%nat \/ (j1 = j2 /\ o1 < o2))).
+
+Lemma lex_tri n1 j1 o1 n2 j2 o2 :
+  lexlt (n1, j1, o1) (n2, j2, o2) \/ (n1 = n2 /\ j1 = j2 /\ o1 = o2) \/ lexlt (n2, j2, o2) (n1, j1, o1).
+Proof. unfold lexlt. lia. Qed.
+
+(* whatever lies before (n, j, o) in the probe order of k has been passed *)
+Lemma before_lt tb k n j o n' j' o' t' :
+  before tb k n j o -> lexlt (n', j', o') (n, j, o) -> nth_error tb n' = Some t' -> cdummy t' = false ->
+  emp_loop_cond (ps t' k j') (cmask t') = true -> In o' offsets -> keyne t' k (pb t' k j' + o').
+Proof.
+  intros (H1 & H2) L Hn' Hd Hc Ho'. destruct L as [L|(-> & L)].
+  - destruct (H1 _ _ L Hn') as [D|P]; [congruence|]. apply P; auto.
+  - destruct (H2 _ Hn') as (G1 & G2). destruct L as [L|(-> & L)]; [apply G1; auto|apply G2; auto].
+Qed.
+
+Lemma TabInv_ext_same tb tb' n tn : lext tb tb' -> (n < length tb)%nat -> TabInv tb n tn -> TabInv tb' n tn.
+Proof.
+  intros L Hn [A B C D E F]. constructor; auto.
+  intros i k j o tid opn H. destruct (E _ _ _ _ _ _ H) as (E1 & E2 & E3 & E4 & E5 & E6).
+  split; [auto|]. split; [auto|]. split; [auto|]. split; [|split; auto].
+  apply (before_ext tb tb' k n j o L Hn E4).
+Qed.
+
+Lemma keyne_own_contra tb n tn k p j o tid opn : TabInv tb n tn -> keyne tn k p ->
+  cown tn (lidx tn p) = Some (k, j, o, tid, opn) -> False.
+Proof.
+  intros TI (H0 & e & He & Hne) Ho. destruct (ti_own _ _ _ TI _ _ _ _ _ _ Ho) as (_ & _ & _ & _ & _ & [V|(v & V)]).
+  - congruence.
+  - rewrite V in He. inversion He; subst. apply Hne. reflexivity.
+Qed.
+
+Lemma lext_len tb tb' n : lext tb tb' -> (n < length tb)%nat -> (n < length tb')%nat.
+Proof.
+  intros L H. destruct (nth_error tb n) eqn:E; [|apply nth_error_None in E; lia].
+  destruct (L _ _ E) as (t' & E' & _). apply nth_error_Some. congruence.
+Qed.
+Lemma nth_len {A} (l : list A) n x : nth_error l n = Some x -> (n < length l)%nat.
+Proof. intros H. apply nth_error_Some. congruence. Qed.
+
+Lemma at_group_ext tb tb' k n j stp base tn : lext tb tb' -> at_group tb k n j stp base tn ->
+  exists tn', text tn tn' /\ at_group tb' k n j stp base tn'.
+Proof.
+  intros L (H1 & H2 & H3 & H4). destruct (L _ _ H1) as (tn' & H1' & T). exists tn'. split; auto.
+  pose proof T as (_ & M & _). unfold at_group. rewrite (pb_mask tn tn'), (ps_mask tn tn'), M by auto. auto.
+Qed.
+
+Lemma owns_ext tb tb' t th k n idx pos tn j o : lext tb tb' -> owns tb t th k n idx pos tn j o ->
+  exists tn', text tn tn' /\ owns tb' t th k n idx pos tn' j o.
+Proof.
+  intros L (H1 & H2 & H3). destruct (L _ _ H1) as (tn' & H1' & T). exists tn'. split; auto.
+  pose proof T as (_ & M & _ & _ & O & _). unfold owns. rewrite (pb_mask tn tn') by auto. auto.
+Qed.
+
+(* a step of another thread preserves the invariant of thread t as long as it does not construct into a slot
+   that t has claimed *)
+Lemma TInv_ext tb tb' gr t th : lext tb tb' ->
+  (forall n tn tn' i, nth_error tb n = Some tn -> nth_error tb' n = Some tn' -> cvals tn i = None ->
+     cvals tn' i = None \/ exists k j o t0 opn, cown tn i = Some (k, j, o, t0, opn) /\ t0 <> t) ->
+  TInv tb gr t th -> TInv tb' gr t th.
+Proof.
+  intros L F. unfold TInv. destruct (tpc th) as [|n j stp base|n j stp base g cs|n j stp base c|n idx pos|n idx pos|n idx pos|n idx pos|n|n].
+  - auto.
+  - intros (o & tn & H1 & H2 & H3). destruct (at_group_ext _ _ _ _ _ _ _ _ L H2) as (tn' & T & H2').
+    exists o, tn'. split; [auto|]. split; [exact H2'|]. intros Hf. eapply before_ext; eauto. eapply nth_len, H2.
+  - intros (o & tn & H1 & H2 & H3 & H4 & H5 & H6 & H7). destruct (at_group_ext _ _ _ _ _ _ _ _ L H2) as (tn' & T & H2').
+    exists o, tn'. split; [auto|]. split; [auto|]. split; [intros Hf; eapply before_ext; eauto; eapply nth_len, H2|].
+    split; [|split; [auto|split; [auto|]]].
+    + intros c Hc Hg. pose proof (H4 c Hc Hg) as E. destruct T as (_ & _ & T3 & _). rewrite T3; lia.
+    + intros c Hc Hg. destruct (H7 c Hc Hg) as [?|K]; [auto|right; eapply keyne_ext; eauto].
+  - intros (o & tn & H1 & H1' & H2 & H3 & H4). destruct (at_group_ext _ _ _ _ _ _ _ _ L H2) as (tn' & T & H2').
+    exists o, tn'. split; [auto|]. split; [auto|]. split; [exact H2'|]. split; [|auto].
+    eapply before_ext; eauto. eapply nth_len, H2.
+  - intros (k & v & tn & j & o & H1 & H2 & H3). destruct (owns_ext _ _ _ _ _ _ _ _ _ _ _ L H2) as (tn' & T & H2').
+    exists k, v, tn', j, o. split; [auto|]. split; [auto|].
+    destruct (F n tn tn' idx) as [?|(k0 & j0 & o0 & t0 & opn & E & Hne)]; auto; try apply H2; try apply H2'.
+    destruct H2 as (_ & E2 & _). rewrite E2 in E. inversion E; subst. congruence.
+  - intros (k & v & tn & j & o & H1 & H2 & H3). destruct (owns_ext _ _ _ _ _ _ _ _ _ _ _ L H2) as (tn' & T & H2').
+    exists k, v, tn', j, o. repeat split; auto; try apply H2'. apply T. auto.
+  - intros (k & v & tn & j & o & H1 & H2 & H3 & H4). destruct (owns_ext _ _ _ _ _ _ _ _ _ _ _ L H2) as (tn' & T & H2').
+    exists k, v, tn', j, o. repeat split; auto; try apply H2'. apply T; auto.
+    destruct T as (_ & _ & T3 & _). rewrite T3; auto. rewrite H4. apply chk_rng.
+  - intros (k & v & tn & j & o & H1 & H2 & H3 & H4 & H5). destruct (owns_ext _ _ _ _ _ _ _ _ _ _ _ L H2) as (tn' & T & H2').
+    exists k, v, tn', j, o. repeat split; auto; try apply H2'. apply T; auto.
+    + destruct T as (_ & _ & T3 & _). rewrite T3; auto. rewrite H4. apply chk_rng.
+    + destruct T as (_ & _ & T3 & _). rewrite T3; auto. rewrite H5. apply chk_rng.
+  - intros (o & H1 & H2 & H3). exists o. split; [auto|]. split; [eapply lext_len; eauto|]. intros Hf. eapply passed_upto_ext; eauto.
+  - intros (o & H1 & H1' & H1'' & H2 & H3). exists o. repeat split; auto. eapply lext_len; eauto. eapply passed_upto_ext; eauto.
+Qed.
+
+Lemma TInv_opi tb gr t th th' : tpc th' = tpc th -> prog th' = prog th -> opi th' = opi th ->
+  TInv tb gr t th -> TInv tb gr t th'.
+Proof.
+  unfold TInv, cur_op, owns. intros -> -> ->. auto.
+Qed.
+
+Lemma Uniq_same tb tb' : length tb' = length tb ->
+  (forall n t t', nth_error tb n = Some t -> nth_error tb' n = Some t' -> cown t' = cown t) ->
+  Uniq tb -> Uniq tb'.
+Proof.
+  intros Hl H U n1 t1 i1 n2 t2 i2 k j1 o1 a1 b1 j2 o2 a2 b2 H1 H2 O1 O2.
+  destruct (nth_error tb n1) as [u1|] eqn:E1; [|apply nth_error_None in E1; apply nth_len in H1; lia].
+  destruct (nth_error tb n2) as [u2|] eqn:E2; [|apply nth_error_None in E2; apply nth_len in H2; lia].
+  rewrite (H _ _ _ E1 H1) in O1. rewrite (H _ _ _ E2 H2) in O2. eapply U; eauto.
+Qed.
+
+(* ================= arithmetic of positions ================= *)
+Lemma cbcount_mask t : cmask t = cbcount t - 1.
+Proof. unfold cbcount, bucket_count_of_mask. lia. Qed.
+
+Lemma lidx_mod t p : pow2 (cbcount t) -> lidx t p = p mod cbcount t.
+Proof. intros H. unfold lidx. apply (land_m (cmask t) (cbcount t) H (cbcount_mask t)). Qed.
+
+Lemma lidx_range t p : pow2 (cbcount t) -> 0 <= lidx t p < cbcount t.
+Proof. intros H. rewrite lidx_mod by auto. apply Z.mod_pos_bound. pose proof (pow2_ge _ H). lia. Qed.
+
+Lemma pb_range t k j : pow2 (cbcount t) -> 0 <= pb t k j < cbcount t.
+Proof.
+  intros H. destruct j.
+  - unfold pb. simpl. unfold emp_base0. fold (lidx t (Z.shiftr (hash k) CHECKER_MASK_BITS)). apply lidx_range; auto.
+  - rewrite pb_S. unfold emp_next_base. fold (lidx t (pb t k j + (ps t k j + emp_step_inc))). apply lidx_range; auto.
+Qed.
+
+Lemma lidx_cloned t idx : pow2 (cbcount t) -> 0 <= idx < cbcount t -> lidx t (emp_cloned_index idx (cmask t)) = idx.
+Proof.
+  intros H Hi. rewrite (cloned_eq (cmask t) (cbcount t) H (cbcount_mask t)) by auto. pose proof (pow2_ge _ H).
+  rewrite lidx_mod by auto. destruct (idx <? 15).
+  - replace (cbcount t + idx) with (idx + 1 * cbcount t) by lia. rewrite Z.mod_add by lia. apply Z.mod_small. lia.
+  - apply Z.mod_small. lia.
+Qed.
+
+Lemma pos_cases t b o : pow2 (cbcount t) -> 0 <= b < cbcount t -> In o offsets ->
+  b + o = lidx t (b + o) \/ b + o = emp_cloned_index (lidx t (b + o)) (cmask t).
+Proof.
+  intros H Hb Ho. apply in_offsets in Ho. pose proof (pow2_ge _ H).
+  pose proof (lidx_range t (b + o) H) as R. rewrite (cloned_eq (cmask t) (cbcount t) H (cbcount_mask t)) by auto.
+  rewrite lidx_mod in * by auto. destruct (Z_lt_dec (b + o) (cbcount t)).
+  - left. rewrite Z.mod_small; lia.
+  - right. assert (E0 : (b + o) mod cbcount t = b + o - cbcount t).
+    { replace (b + o) with ((b + o - cbcount t) + 1 * cbcount t) at 1 by lia. rewrite Z.mod_add by lia.
+      apply Z.mod_small. lia. }
+    rewrite E0. destruct (b + o - cbcount t <? 15) eqn:E; lia.
+Qed.
+
+(* two offsets of one group never address the same bucket *)
+Lemma win_inj t b o o' : pow2 (cbcount t) -> In o offsets -> In o' offsets -> lidx t (b + o) = lidx t (b + o') -> o = o'.
+Proof.
+  intros H Ho Ho' E. apply in_offsets in Ho, Ho'. pose proof (pow2_ge _ H). rewrite !lidx_mod in E by auto.
+  assert (D : ((b + o) - (b + o')) mod cbcount t = 0).
+  { rewrite Zminus_mod, E, Z.sub_diag. apply Z.mod_0_l. lia. }
+  replace (b + o - (b + o')) with (o - o') in D by lia.
+  destruct (Z_lt_dec o o').
+  - replace (o - o') with ((o - o' + cbcount t) + (-1) * cbcount t) in D by lia. rewrite Z.mod_add in D by lia.
+    rewrite Z.mod_small in D by lia. lia.
+  - rewrite Z.mod_small in D by lia. lia.
+Qed.
+
+(* ================= one table under the five kinds of writes ================= *)
+Lemma own_not_empty tb n tn i w : TabInv tb n tn -> cown tn i = Some w -> cctrl tn i <> EMPTY_CONTROL.
+Proof.
+  intros TI H. destruct w as [[[[k j] o] tid] opn]. destruct (ti_own _ _ _ TI _ _ _ _ _ _ H) as (_ & _ & _ & _ & [C|C] & _).
+  - rewrite C, busy_val, empty_val. lia.
+  - rewrite C, empty_val. pose proof (chk_rng k). lia.
+Qed.
+
+Lemma empty_not_dummy tb n tn i : TabInv tb n tn -> cctrl tn i = EMPTY_CONTROL -> cdummy tn = false.
+Proof.
+  intros TI H. destruct (cdummy tn) eqn:E; auto. destruct (ti_dummy _ _ _ TI E i) as (D & _).
+  rewrite D, dummy_val, empty_val in H. lia.
+Qed.
+
+Lemma tab_cas tb tb' n tn idx k j c t opn :
+  TabInv tb n tn -> lext tb tb' -> (n < length tb)%nat ->
+  cctrl tn idx = EMPTY_CONTROL -> idx = lidx tn (pb tn k j + c) -> In c offsets ->
+  emp_loop_cond (ps tn k j) (cmask tn) = true -> before tb' k n j c ->
+  TabInv tb' n (mkCT (cdummy tn) (cmask tn) (upd (cctrl tn) idx cBUSY) (cvals tn) (ccnt tn)
+                     (upd (cown tn) idx (Some (k, j, c, t, opn)))).
+Proof.
+  intros TI L Hn He Hi Hc Hl Hb.
+  assert (Hown : cown tn idx = None).
+  { destruct (cown tn idx) eqn:E; auto. exfalso. eapply own_not_empty; eauto. }
+  assert (Hval : cvals tn idx = None).
+  { destruct (cvals tn idx) eqn:E; auto. destruct (ti_val _ _ _ TI _ _ E) as (? & ? & ? & ? & E2). congruence. }
+  pose proof (empty_not_dummy _ _ _ _ TI He) as Hd.
+  constructor; simpl.
+  - apply TI.
+  - congruence.
+  - intros _ p. unfold upd. destruct (p =? idx); [right; left; reflexivity|apply (ti_dom _ _ _ TI Hd)].
+  - intros p Hp. unfold lidx; simpl. fold (lidx tn p). unfold upd in Hp. destruct (p =? idx) eqn:E; [rewrite busy_val in Hp; lia|].
+    destruct (ti_pub _ _ _ TI p Hp) as (k0 & j0 & o0 & tid0 & opn0 & v0 & P1 & P2 & P3).
+    exists k0, j0, o0, tid0, opn0, v0. unfold upd. rewrite E. destruct (lidx tn p =? idx) eqn:E2; [|auto].
+    apply Z.eqb_eq in E2. congruence.
+  - intros i k0 j0 o0 tid0 opn0. unfold upd. destruct (i =? idx) eqn:E.
+    + apply Z.eqb_eq in E. subst i. intros H; inversion H; subst k0 j0 o0 tid0 opn0. unfold lidx, pb, ps; simpl.
+      fold (pb tn k j). fold (ps tn k j). fold (lidx tn (pb tn k j + c)). split; [auto|]. split; [auto|]. split; [auto|]. split; [auto|]. split; auto.
+    + intros H. destruct (ti_own _ _ _ TI _ _ _ _ _ _ H) as (E1 & E2 & E3 & E4 & E5 & E6).
+      unfold lidx, pb, ps; simpl. fold (pb tn k0 j0). fold (ps tn k0 j0). fold (lidx tn (pb tn k0 j0 + o0)).
+      split; [auto|]. split; [auto|]. split; [auto|]. split; [eapply before_ext; eauto|]. split; auto.
+  - intros i e H. unfold upd. destruct (i =? idx) eqn:E; [apply Z.eqb_eq in E; congruence|]. apply (ti_val _ _ _ TI _ _ H).
+Qed.
+
+Lemma tab_cons tb tb' n tn idx k v j o t opn :
+  TabInv tb n tn -> lext tb tb' -> (n < length tb)%nat ->
+  cown tn idx = Some (k, j, o, t, opn) -> cvals tn idx = None ->
+  TabInv tb' n (mkCT (cdummy tn) (cmask tn) (cctrl tn) (upd (cvals tn) idx (Some (k, v))) (ccnt tn) (cown tn)).
+Proof.
+  intros TI L Hn Ho Hv.
+  assert (Hd : cdummy tn = false).
+  { destruct (cdummy tn) eqn:E; auto. destruct (ti_dummy _ _ _ TI E idx) as (_ & D & _). congruence. }
+  constructor; simpl.
+  - apply TI.
+  - congruence.
+  - intros _. apply (ti_dom _ _ _ TI Hd).
+  - intros p Hp. unfold lidx; simpl. fold (lidx tn p).
+    destruct (ti_pub _ _ _ TI p Hp) as (k0 & j0 & o0 & tid0 & opn0 & v0 & P1 & P2 & P3).
+    exists k0, j0, o0, tid0, opn0, v0. unfold upd. destruct (lidx tn p =? idx) eqn:E; [apply Z.eqb_eq in E; congruence|auto].
+  - intros i k0 j0 o0 tid0 opn0 H. destruct (ti_own _ _ _ TI _ _ _ _ _ _ H) as (E1 & E2 & E3 & E4 & E5 & E6).
+    unfold lidx, pb, ps; simpl. fold (pb tn k0 j0). fold (ps tn k0 j0). fold (lidx tn (pb tn k0 j0 + o0)).
+    split; [auto|]. split; [auto|]. split; [auto|]. split; [eapply before_ext; eauto|]. split; [auto|].
+    unfold upd. destruct (i =? idx) eqn:E; [|auto]. apply Z.eqb_eq in E. rewrite E in H. rewrite Ho in H. inversion H; subst k0 j0 o0 tid0 opn0. right; eauto.
+  - intros i e. unfold upd. destruct (i =? idx) eqn:E.
+    + apply Z.eqb_eq in E. subst i. intros H; inversion H; subst e. simpl. eauto.
+    + apply (ti_val _ _ _ TI).
+Qed.
+
+Lemma tab_store tb tb' n tn idx p0 k v j o t opn :
+  TabInv tb n tn -> lext tb tb' -> (n < length tb)%nat ->
+  cown tn idx = Some (k, j, o, t, opn) -> cvals tn idx = Some (k, v) -> lidx tn p0 = idx ->
+  TabInv tb' n (with_ctrl tn (upd (cctrl tn) p0 (chk k))).
+Proof.
+  intros TI L Hn Ho Hv Hp0.
+  assert (Hd : cdummy tn = false).
+  { destruct (cdummy tn) eqn:E; auto. destruct (ti_dummy _ _ _ TI E idx) as (_ & D & _). congruence. }
+  unfold with_ctrl. constructor; simpl.
+  - apply TI.
+  - congruence.
+  - intros _ p. unfold upd. destruct (p =? p0); [right; right; apply chk_rng|apply (ti_dom _ _ _ TI Hd)].
+  - intros p. unfold lidx; simpl. fold (lidx tn p). unfold upd. destruct (p =? p0) eqn:E.
+    + apply Z.eqb_eq in E. subst p. intros _. rewrite Hp0. exists k, j, o, t, opn, v. auto.
+    + apply (ti_pub _ _ _ TI).
+  - intros i k0 j0 o0 tid0 opn0 H. destruct (ti_own _ _ _ TI _ _ _ _ _ _ H) as (E1 & E2 & E3 & E4 & E5 & E6).
+    unfold lidx, pb, ps; simpl. fold (pb tn k0 j0). fold (ps tn k0 j0). fold (lidx tn (pb tn k0 j0 + o0)).
+    split; [auto|]. split; [auto|]. split; [auto|]. split; [eapply before_ext; eauto|]. split; [|auto].
+    unfold upd. destruct (i =? p0) eqn:E; [|auto]. apply Z.eqb_eq in E. subst p0. right.
+    assert (Hii : i = idx) by (rewrite <- Hp0; rewrite E2; rewrite lidx_idem; reflexivity). rewrite Hii in H. rewrite Ho in H. inversion H; subst k0 j0 o0 tid0 opn0. reflexivity.
+  - apply (ti_val _ _ _ TI).
+Qed.
+
+Lemma tab_size tb tb' n tn c : TabInv tb n tn -> lext tb tb' -> (n < length tb)%nat ->
+  TabInv tb' n (mkCT (cdummy tn) (cmask tn) (cctrl tn) (cvals tn) c (cown tn)).
+Proof.
+  intros TI L Hn. destruct (TabInv_ext_same _ _ _ _ L Hn TI) as [A B C D E F]. constructor; auto.
+Qed.
+
+(* ================= the CAS winner is the only claim of its key ================= *)
+Lemma own_not_dummy tb n tn i w : TabInv tb n tn -> cown tn i = Some w -> cdummy tn = false.
+Proof.
+  intros TI H. destruct (cdummy tn) eqn:E; auto. destruct (ti_dummy _ _ _ TI E i) as (_ & D & _). congruence.
+Qed.
+
+Lemma cas_conflict tb n tn idx k j c m tm i j2 o2 a2 b2 :
+  (forall m tm, nth_error tb m = Some tm -> TabInv tb m tm) ->
+  nth_error tb n = Some tn -> cctrl tn idx = EMPTY_CONTROL -> idx = lidx tn (pb tn k j + c) -> In c offsets ->
+  emp_loop_cond (ps tn k j) (cmask tn) = true -> before tb k n j c ->
+  nth_error tb m = Some tm -> cown tm i = Some (k, j2, o2, a2, b2) -> False.
+Proof.
+  intros TIs Hn He Hi Hc Hl Hb Hm Ho.
+  pose proof (TIs _ _ Hn) as TIn. pose proof (TIs _ _ Hm) as TIm.
+  destruct (ti_own _ _ _ TIm _ _ _ _ _ _ Ho) as (E1 & E2 & E3 & E4 & E5 & E6).
+  destruct (lex_tri m j2 o2 n j c) as [L|[(-> & -> & ->)|L]].
+  - pose proof (before_lt _ _ _ _ _ _ _ _ _ Hb L Hm (own_not_dummy _ _ _ _ _ TIm Ho) E3 E1) as K.
+    apply (keyne_own_contra tb m tm k _ j2 o2 a2 b2 TIm K). rewrite <- E2. exact Ho.
+  - rewrite Hn in Hm. inversion Hm; subst tm. rewrite <- Hi in E2. rewrite E2 in Ho.
+    exact (own_not_empty _ _ _ _ _ TIn Ho He).
+  - pose proof (before_lt _ _ _ _ _ _ _ _ _ E4 L Hn (empty_not_dummy _ _ _ _ TIn He) Hl Hc) as (K0 & _).
+    destruct (ti_pub _ _ _ TIn _ K0) as (k0 & j0 & o0 & tid0 & opn0 & v0 & P1 & _). rewrite <- Hi in P1.
+    exact (own_not_empty _ _ _ _ _ TIn P1 He).
+Qed.
+
+Lemma uniq_cas tb n tn idx k j c t opn :
+  (forall m tm, nth_error tb m = Some tm -> TabInv tb m tm) -> Uniq tb ->
+  nth_error tb n = Some tn -> cctrl tn idx = EMPTY_CONTROL -> idx = lidx tn (pb tn k j + c) -> In c offsets ->
+  emp_loop_cond (ps tn k j) (cmask tn) = true -> before tb k n j c ->
+  Uniq (set_nth n (mkCT (cdummy tn) (cmask tn) (upd (cctrl tn) idx cBUSY) (cvals tn) (ccnt tn)
+                        (upd (cown tn) idx (Some (k, j, c, t, opn)))) tb).
+Proof.
+  intros TIs U Hn He Hi Hc Hl Hb.
+  set (tn' := mkCT _ _ _ _ _ _).
+  assert (ON : forall m t' i w, nth_error (set_nth n tn' tb) m = Some t' -> cown t' i = Some w ->
+               (m = n /\ i = idx /\ w = (k, j, c, t, opn)) \/ (exists tm, nth_error tb m = Some tm /\ cown tm i = Some w)).
+  { intros m t' i w Hm Hw. rewrite (nth_error_set_nth _ _ _ _ _ Hn) in Hm. destruct (Nat.eqb n m) eqn:E.
+    - apply Nat.eqb_eq in E. subst m. inversion Hm; subst t'. unfold tn' in Hw; simpl in Hw. unfold upd in Hw.
+      destruct (i =? idx) eqn:E2.
+      + left. apply Z.eqb_eq in E2. inversion Hw. auto.
+      + right. eauto.
+    - right. eauto. }
+  intros n1 t1 i1 n2 t2 i2 k0 j1 o1 a1 b1 j2 o2 a2 b2 H1 H2 O1 O2.
+  destruct (ON _ _ _ _ H1 O1) as [(-> & -> & W1)|(u1 & U1 & V1)];
+  destruct (ON _ _ _ _ H2 O2) as [(-> & -> & W2)|(u2 & U2 & V2)].
+  - auto.
+  - inversion W1; subst k0 j1 o1 a1 b1. exfalso. exact (cas_conflict tb n tn idx k j c n2 u2 i2 j2 o2 a2 b2 TIs Hn He Hi Hc Hl Hb U2 V2).
+  - inversion W2; subst k0 j2 o2 a2 b2. exfalso. exact (cas_conflict tb n tn idx k j c n1 u1 i1 j1 o1 a1 b1 TIs Hn He Hi Hc Hl Hb U1 V1).
+  - exact (U _ _ _ _ _ _ _ _ _ _ _ _ _ _ _ U1 U2 V1 V2).
+Qed.
+
+Lemma uniq_app tb x : (forall i, cown x i = None) -> Uniq tb -> Uniq (tb ++ [x]).
+Proof.
+  intros Hx U n1 t1 i1 n2 t2 i2 k j1 o1 a1 b1 j2 o2 a2 b2 H1 H2 O1 O2.
+  assert (G : forall n t i w, nth_error (tb ++ [x]) n = Some t -> cown t i = Some w -> nth_error tb n = Some t).
+  { intros n t i w Hn Hw. destruct (Nat.lt_ge_cases n (length tb)) as [Hl|Hl].
+    - rewrite nth_error_app1 in Hn; auto.
+    - rewrite nth_error_app2 in Hn by lia. destruct (n - length tb)%nat; simpl in Hn.
+      + inversion Hn; subst. rewrite Hx in Hw. discriminate.
+      + destruct n0; discriminate. }
+  eapply U; eauto.
+Qed.
+
+Lemma before_weaken tb k n j o o' : o' <= o -> before tb k n j o -> before tb k n j o'.
+Proof.
+  intros Hle (H1 & H2). split; auto. intros t Ht. destruct (H2 _ Ht) as (G1 & G2). split; auto.
+  intros o0 Ho0 Hlt. apply G2; auto. lia.
+Qed.
+
+(* ================= assembling the state invariant after a step ================= *)
+Lemma nth_set_threads (l : list thread) t th th' t' x : nth_error l t = Some th ->
+  nth_error (set_nth t th' l) t' = Some x -> (t' = t /\ x = th') \/ (t' <> t /\ nth_error l t' = Some x).
+Proof.
+  intros Ht H. rewrite (nth_error_set_nth _ _ _ _ _ Ht) in H. destruct (Nat.eqb t t') eqn:E.
+  - apply Nat.eqb_eq in E. inversion H. auto.
+  - apply Nat.eqb_neq in E. auto.
+Qed.
+
+Lemma inv_local s t th th' dk br dc cons al fr :
+  Inv s -> nth_error (threads s) t = Some th -> TInv (tabs s) (grow s) t th' -> br = false -> dc = false ->
+  Inv (commit s t th' (tabs s) dk br dc cons al fr) /\ lext (tabs s) (tabs (commit s t th' (tabs s) dk br dc cons al fr)).
+Proof.
+  intros I Ht T -> ->. split; [|apply lext_refl]. constructor; simpl; try apply I; auto.
+  intros t' x Hx. destruct (nth_set_threads _ _ _ _ _ _ Ht Hx) as [(-> & ->)|(Hne & Hx')]; auto. apply (inv_thr _ I _ _ Hx').
+Qed.
+
+Lemma inv_mem s t th th' tb' dk br dc cons al fr :
+  Inv s -> nth_error (threads s) t = Some th -> lext (tabs s) tb' ->
+  (forall n tn', nth_error tb' n = Some tn' -> TabInv tb' n tn') -> Uniq tb' ->
+  (forall n tn tn' i, nth_error (tabs s) n = Some tn -> nth_error tb' n = Some tn' -> cvals tn i = None ->
+     cvals tn' i = None \/ exists k j o opn, cown tn i = Some (k, j, o, t, opn)) ->
+  TInv tb' (grow s) t th' -> br = false -> dc = false ->
+  Inv (commit s t th' tb' dk br dc cons al fr) /\ lext (tabs s) (tabs (commit s t th' tb' dk br dc cons al fr)).
+Proof.
+  intros I Ht L TIs U F T -> ->. split; [|exact L]. constructor; simpl; auto.
+  - intros t' x Hx. destruct (nth_set_threads _ _ _ _ _ _ Ht Hx) as [(-> & ->)|(Hne & Hx')]; auto.
+    eapply TInv_ext; [exact L| |apply (inv_thr _ I _ _ Hx')].
+    intros n tn tn' i H1 H2 H3. destruct (F _ _ _ _ H1 H2 H3) as [?|(k & j & o & opn & E)]; [auto|].
+    right. exists k, j, o, t, opn. auto.
+  - pose proof (inv_ne _ I) as NE. destruct (nth_error (tabs s) 0) as [t0|] eqn:E.
+    + destruct (L _ _ E) as (t0' & H0 & _). intros ->. discriminate.
+    + destruct (tabs s); [congruence|discriminate].
+Qed.
+
+(* all tables after a write to table n *)
+Lemma tabs_set tb n tn tn' : (forall m tm, nth_error tb m = Some tm -> TabInv tb m tm) ->
+  nth_error tb n = Some tn -> text tn tn' -> TabInv (set_nth n tn' tb) n tn' ->
+  forall m tm', nth_error (set_nth n tn' tb) m = Some tm' -> TabInv (set_nth n tn' tb) m tm'.
+Proof.
+  intros TIs Hn T TI' m tm' Hm. rewrite (nth_error_set_nth _ _ _ _ _ Hn) in Hm. destruct (Nat.eqb n m) eqn:E.
+  - apply Nat.eqb_eq in E. subst m. inversion Hm; subst. auto.
+  - eapply TabInv_ext_same; [eapply lext_set; eauto|eapply nth_len; eauto|auto].
+Qed.
+
+Lemma frame_set tb n tn tn' (P : Z -> Prop) :
+  nth_error tb n = Some tn -> (forall i, cvals tn i = None -> cvals tn' i = None \/ P i) ->
+  forall m tm tm' i, nth_error tb m = Some tm -> nth_error (set_nth n tn' tb) m = Some tm' -> cvals tm i = None ->
+    cvals tm' i = None \/ (m = n /\ tm = tn /\ P i).
+Proof.
+  intros Hn H m tm tm' i Hm Hm' Hv. rewrite (nth_error_set_nth _ _ _ _ _ Hn) in Hm'. destruct (Nat.eqb n m) eqn:E.
+  - apply Nat.eqb_eq in E. subst m. inversion Hm'; subst. rewrite Hn in Hm. inversion Hm; subst.
+    destruct (H _ Hv); auto.
+  - rewrite Hm in Hm'. inversion Hm'; subst. auto.
+Qed.
+
+Lemma fresh_TabInv tb n m : TabInv tb n (fresh_ct m).
+Proof.
+  constructor; simpl; try discriminate; auto.
+  - apply (construct_bcount dummy_table m).
+  - intros p Hp. rewrite empty_val in Hp. lia.
+Qed.
+
+Lemma dummy_TabInv tb n : TabInv tb n dummy_ct.
+Proof.
+  constructor; simpl; try discriminate; auto.
+  - exists 4. split; [lia|reflexivity].
+  - intros p Hp. rewrite dummy_val in Hp. lia.
+Qed.
+
+Lemma mask_nonneg tb n tn : TabInv tb n tn -> emp_loop_cond 0 (cmask tn) = true.
+Proof.
+  intros TI. pose proof (pow2_ge _ (ti_pow _ _ _ TI)). rewrite (emp_loop_cond_eq (cmask tn) (cbcount tn) (cbcount_mask tn)).
+  apply Z.ltb_lt. lia.
+Qed.
+
+Lemma start_ok tb gr t th o n tn : nth_error tb n = Some tn -> TabInv tb n tn ->
+  cur_op th = Some o -> tpc th = start_table hash (is_find o) (okey o) n tn ->
+  (is_find o = false -> before tb (okey o) n 0 0) -> TInv tb gr t th.
+Proof.
+  intros Hn TI Ho Hpc Hb. unfold TInv. rewrite Hpc. unfold start_table. exists o, tn. split; [auto|]. split; [|auto].
+  split; [auto|]. split; [rewrite sel_base0_eq; reflexivity|]. split; [reflexivity|]. eapply mask_nonneg; eauto.
+Qed.
+
+Lemma pub_other tb n tn k p : TabInv tb n tn -> 0 <= cctrl tn p -> cctrl tn p <> chk k -> keyne tn k p.
+Proof.
+  intros TI H0 Hne. split; auto. destruct (ti_pub _ _ _ TI _ H0) as (k0 & j0 & o0 & tid0 & opn0 & v0 & P1 & P2 & P3).
+  exists (k0, v0). split; auto. simpl. intros ->. auto.
+Qed.
+
+Lemma after_match_ok tb gr t th o n j stp base g tn :
+  TabInv tb n tn -> cur_op th = Some o -> at_group tb (okey o) n j stp base tn ->
+  (is_find o = false -> before tb (okey o) n j 0) -> snap tn base g ->
+  (forall c, In c offsets -> gget g c = chk (okey o) -> keyne tn (okey o) (base + c)) ->
+  tpc th = after_match (is_find o) tn n j stp base g -> TInv tb gr t th.
+Proof.
+  intros TI Ho AG Hb Hs Hk Hpc. pose proof AG as (Hn & Hbase & Hstp & Hl).
+  assert (K : forall o', In o' offsets -> 0 <= gget g o' -> keyne tn (okey o) (base + o')).
+  { intros o' Ho' H0. pose proof (Hs _ Ho' H0) as Ec. destruct (Z.eq_dec (gget g o') (chk (okey o))) as [E|E]; [auto|].
+    eapply pub_other; eauto; rewrite Ec; auto. }
+  unfold TInv. rewrite Hpc. unfold after_match. destruct (first_empty_g g) as [o0|] eqn:E.
+  - destruct (first_empty_g_some _ _ E) as (F1 & F2 & F3). destruct (is_find o) eqn:Ef.
+    + exists o. split; [auto|]. split; [eapply nth_len; eauto|intros Hx; congruence].
+    + exists o, tn. split; [auto|]. split; [auto|]. split; [auto|]. split; [|auto].
+      destruct (Hb eq_refl) as (B1 & B2). split; [auto|]. intros t0 Ht0. rewrite Hn in Ht0. inversion Ht0; subst t0.
+      destruct (B2 _ Hn) as (G1 & _). split; [auto|]. intros o' Ho' Hlt. rewrite <- Hbase. apply K; auto.
+  - pose proof (first_empty_g_none _ E) as F. rewrite sel_step_inc_eq, sel_loop_cond_eq, sel_next_base_eq.
+    assert (GP : grp_passed tn (okey o) j). { intros o' Ho'. rewrite <- Hbase. apply K; auto. }
+    destruct (emp_loop_cond (stp + emp_step_inc) (cmask tn)) eqn:El.
+    + exists o, tn. split; [auto|]. split.
+      * split; [auto|]. rewrite pb_S, ps_S, <- Hbase, <- Hstp. auto.
+      * intros Hf. destruct (Hb Hf) as (B1 & B2). split; [auto|]. intros t0 Ht0. rewrite Hn in Ht0. inversion Ht0; subst t0.
+        destruct (B2 _ Hn) as (G1 & _). split.
+        -- intros j' Hj'. destruct (Nat.eq_dec j' j) as [->|Hne]; [auto|apply G1; lia].
+        -- intros o' Ho'. apply in_offsets in Ho'. lia.
+    + exists o. split; [auto|]. split; [eapply nth_len; eauto|]. intros Hf. destruct (Hb Hf) as (B1 & B2).
+      intros n' t' Hle Hn'. destruct (Nat.eq_dec n' n) as [->|Hne]; [|apply (B1 n'); auto; lia].
+      rewrite Hn in Hn'. inversion Hn'; subst t'. right. intros j' Hj'.
+      destruct (le_lt_dec j' j) as [Hle'|Hgt].
+      * destruct (Nat.eq_dec j' j) as [->|Hne]; [auto|]. destruct (B2 _ Hn) as (G1 & _). apply G1. lia.
+      * exfalso. pose proof (ps_mono tn (okey o) (S j) j' ltac:(lia)) as M. rewrite ps_S, <- Hstp in M.
+        unfold emp_loop_cond in *. apply Z.leb_le in Hj'. apply Z.leb_gt in El. lia.
+Qed.
+
+Lemma cur_op_goto th p : cur_op (goto th p) = cur_op th. Proof. reflexivity. Qed.
+
+Ltac same_op Ho Ho' o' := unfold cur_op in Ho'; rewrite Ho in Ho'; inversion Ho'; subst o'; clear Ho'.
+
+Lemma step_inv s t s' : Inv s -> step hash s t = Some s' -> Inv s' /\ lext (tabs s) (tabs s').
+Proof.
+  intros I. unfold step. destruct (nth_error (threads s) t) as [th|] eqn:Ht; [|discriminate].
+  unfold step_thread. destruct (nth_error (prog th) (opi th)) as [o|] eqn:Ho; [|discriminate].
+  pose proof (inv_thr _ I _ _ Ht) as TI. unfold TInv in TI.
+  pose proof (inv_bad _ I) as Hbad. pose proof (inv_dbl _ I) as Hdbl.
+  assert (TIs := inv_tab _ I).
+  rewrite sel_checker_eq. fold (chk (okey o)).
+  destruct (tpc th) as [|n j stp base|n j stp base g cs|n j stp base c|n idx pos|n idx pos|n idx pos|n idx pos|n|n] eqn:Hpc.
+  - (* Idle *)
+    destruct (nth_error (tabs s) 0) as [t0|] eqn:H0; [|discriminate]. intros E; inversion E; subst s'; clear E.
+    unfold local. apply (inv_local s t th); auto.
+    eapply start_ok with (o := o) (n := 0%nat) (tn := t0); eauto; try reflexivity. intros _. apply before_first.
+  - (* PLoad *)
+    destruct TI as (o' & tn & Ho' & AG & Hb). same_op Ho Ho' o'.
+    pose proof AG as (Hn & Hbase & Hstp & Hl). rewrite Hn.
+    assert (Hsnap : snap tn base (gload tn base)). { intros c Hc _. rewrite gget_gload; auto. }
+    destruct (cands (gload tn base) (chk (okey o))) as [|c0 cs0] eqn:Ec;
+      intros E; inversion E; subst s'; clear E; unfold local; apply (inv_local s t th); auto.
+    + eapply after_match_ok with (o := o); eauto; try reflexivity.
+      intros c Hc Hg. exfalso. assert (In c (cands (gload tn base) (chk (okey o)))) by (apply cands_in; auto).
+      rewrite Ec in H. destruct H.
+    + unfold TInv; simpl. exists o, tn. split; [exact Ho|]. split; [auto|]. split; [auto|]. split; [auto|].
+      split; [discriminate|]. split.
+      * intros c Hc. apply cands_in. rewrite Ec. exact Hc.
+      * intros c Hc Hg. left. change (In c (c0 :: cs0)). rewrite <- Ec. apply cands_in. split; [exact Hc|exact Hg].
+  - (* PCmp *)
+    destruct TI as (o' & tn & Ho' & AG & Hb & Hs & Hne & Hcs & Hall). same_op Ho Ho' o'.
+    pose proof AG as (Hn & Hbase & Hstp & Hl). rewrite Hn. destruct cs as [|c rest]; [congruence|].
+    destruct (Hcs c (or_introl eq_refl)) as (Hc & Hg).
+    rewrite sel_index_eq. fold (lidx tn (base + c)).
+    assert (C0 : cctrl tn (base + c) = chk (okey o)).
+    { rewrite (Hs c Hc); auto. rewrite Hg. apply chk_rng. }
+    pose proof (TIs _ _ Hn) as TIn.
+    destruct (ti_pub _ _ _ TIn (base + c)) as (k0 & j0 & o0 & tid0 & opn0 & v0 & P1 & P2 & P3).
+    { rewrite C0. apply chk_rng. }
+    rewrite P2. simpl fst. destruct (k0 =? okey o) eqn:Ek.
+    + intros E; inversion E; subst s'; clear E. apply (inv_local s t th); auto. unfold TInv, finish_op; simpl. exact Logic.I.
+    + apply Z.eqb_neq in Ek.
+      assert (Kc : keyne tn (okey o) (base + c)).
+      { split; [rewrite C0; apply chk_rng|]. exists (k0, v0). auto. }
+      intros E; inversion E; subst s'; clear E. unfold local. apply (inv_local s t th); auto.
+      destruct rest as [|c2 rest2].
+      * eapply after_match_ok with (o := o); eauto; try reflexivity.
+        intros c' Hc' Hg'. destruct (Hall c' Hc' Hg') as [[<-|[]]|K]; auto.
+      * unfold TInv; simpl. exists o, tn. split; [exact Ho|]. split; [auto|]. split; [auto|]. split; [auto|].
+        split; [discriminate|]. split.
+        -- intros c' Hc'. apply Hcs. right; auto.
+        -- intros c' Hc' Hg'. destruct (Hall c' Hc' Hg') as [[<-|Hin]|K]; auto.
+  - (* PCas *)
+    destruct TI as (o' & tn & Ho' & Hf & AG & Hb & Hc). same_op Ho Ho' o'.
+    pose proof AG as (Hn & Hbase & Hstp & Hl). rewrite Hn. rewrite insert_index_eq. fold (lidx tn (base + c)).
+    pose proof (TIs _ _ Hn) as TIn.
+    rewrite cas_expected_val, cas_desired_val.
+    destruct (cctrl tn (lidx tn (base + c)) =? EMPTY_CONTROL) eqn:Ee.
+    + apply Z.eqb_eq in Ee. intros E; inversion E; subst s'; clear E. unfold with_tabs, upd_tab.
+      set (idx := lidx tn (base + c)) in *.
+      set (tn' := mkCT _ _ _ _ _ _).
+      assert (Hidx : idx = lidx tn (pb tn (okey o) j + c)) by (unfold idx; rewrite Hbase; reflexivity).
+      assert (Hl' : emp_loop_cond (ps tn (okey o) j) (cmask tn) = true) by (rewrite <- Hstp; auto).
+      assert (Hown : cown tn idx = None).
+      { destruct (cown tn idx) eqn:E; auto. exfalso. eapply own_not_empty; eauto. }
+      assert (Hval : cvals tn idx = None).
+      { destruct (cvals tn idx) eqn:E; auto. destruct (ti_val _ _ _ TIn _ _ E) as (? & ? & ? & ? & E2). congruence. }
+      assert (T : text tn tn').
+      { unfold tn'. repeat split; simpl; auto.
+        - intros p Hp. apply upd_ne. intros ->. rewrite Ee, empty_val in Hp. lia.
+        - intros i w Hw. rewrite upd_ne; auto. intros ->. congruence.
+        - intros p Hp. left. rewrite upd_ne; auto. intros ->. rewrite Ee, empty_val, busy_val in Hp. lia. }
+      assert (L : lext (tabs s) (set_nth n tn' (tabs s))) by (eapply lext_set; eauto).
+      apply (inv_mem s t th); auto.
+      * eapply tabs_set; eauto. unfold tn'.
+        apply (tab_cas (tabs s) (set_nth n tn' (tabs s)) n tn idx (okey o) j c t (opi th) TIn L (nth_len _ _ _ Hn) Ee Hidx Hc Hl').
+        eapply before_ext; [exact L|eapply nth_len; eauto|exact Hb].
+      * unfold tn'. exact (uniq_cas (tabs s) n tn idx (okey o) j c t (opi th) TIs (inv_uniq _ I) Hn Ee Hidx Hc Hl' Hb).
+      * intros m tm tm' i H1 H2 H3.
+        destruct (frame_set _ _ _ tn' (fun _ => False) Hn (fun i Hv => or_introl Hv) _ _ _ _ H1 H2 H3) as [?|(_ & _ & [])]; auto.
+      * unfold TInv; simpl. destruct o as [k v|k]; [|discriminate]. exists k, v, tn', j, c.
+        split; [exact Ho|]. split.
+        -- split; [apply nth_error_set_nth_eq; eapply nth_len; eauto|]. unfold tn'; simpl. rewrite upd_eq.
+           split; [reflexivity|]. simpl in Hbase. rewrite Hbase. reflexivity.
+        -- unfold tn'; simpl. auto.
+    + apply Z.eqb_neq in Ee. destruct (cas_saw_dummy (cctrl tn (lidx tn (base + c)))) eqn:Ed;
+        intros E; inversion E; subst s'; clear E; unfold local; apply (inv_local s t th); auto.
+      * apply saw_dummy_iff in Ed. unfold TInv; simpl. exists o. split; [exact Ho|]. split; [eapply nth_len; eauto|].
+        intros _. destruct Hb as (B1 & B2). intros n' t' Hle Hn'.
+        destruct (Nat.eq_dec n' n) as [->|Hne]; [|apply (B1 n'); auto; lia].
+        rewrite Hn in Hn'. inversion Hn'; subst t'. left. destruct (cdummy tn) eqn:Edm; auto.
+        destruct (ti_dom _ _ _ TIn Edm (lidx tn (base + c))) as [D|[D|D]]; rewrite Ed, dummy_val in D;
+          try rewrite empty_val in D; try rewrite busy_val in D; lia.
+      * unfold TInv; simpl. exists o, tn. split; [exact Ho|]. split; [auto|]. intros _.
+        eapply before_weaken; [|exact Hb]. apply in_offsets in Hc. lia.
+  - (* PCons *)
+    destruct TI as (k & v & tn & j & c & Ho' & (Hn & Hown & Hpos) & Hval). unfold cur_op in Ho'. rewrite Ho in Ho'.
+    inversion Ho'; subst o; clear Ho'. rewrite Hn. simpl okey.
+    pose proof (TIs _ _ Hn) as TIn. rewrite Hval, Hdbl. simpl orb.
+    intros E; inversion E; subst s'; clear E. unfold upd_tab.
+    set (tn' := mkCT _ _ _ _ _ _).
+    assert (T : text tn tn').
+    { unfold tn'. repeat split; simpl; auto. intros i e He. rewrite upd_ne; auto. intros ->. congruence. }
+    assert (L : lext (tabs s) (set_nth n tn' (tabs s))) by (eapply lext_set; eauto).
+    apply (inv_mem s t th); auto.
+    + eapply tabs_set; eauto. unfold tn'. eapply tab_cons; eauto. eapply nth_len; eauto.
+    + eapply Uniq_same; [apply length_set_nth| |apply I]. intros m u u' H1 H2.
+      rewrite (nth_error_set_nth _ _ _ _ _ Hn) in H2. destruct (Nat.eqb n m) eqn:E.
+      * apply Nat.eqb_eq in E. subst m. inversion H2; subst u'. rewrite Hn in H1. inversion H1; subst u. reflexivity.
+      * congruence.
+    + intros m tm tm' i H1 H2 H3.
+      destruct (frame_set _ _ _ tn' (fun i => i = idx) Hn) with (m := m) (tm := tm) (tm' := tm') (i := i) as [?|(-> & -> & ->)]; auto.
+      * intros i0 Hv. unfold tn'; simpl. unfold upd. destruct (i0 =? idx) eqn:E; [right; apply Z.eqb_eq; auto|left; auto].
+      * right. exists k, j, c, (opi th). auto.
+    + unfold TInv; simpl. exists k, v, tn', j, c. split; [exact Ho|]. split.
+      * split; [apply nth_error_set_nth_eq; eapply nth_len; eauto|]. unfold tn'; simpl. split; [auto|].
+        unfold pb; simpl. fold (pb tn k j). auto.
+      * unfold tn'; simpl. apply upd_eq.
+  - (* PStore1 *)
+    destruct TI as (k & v & tn & j & c & Ho' & (Hn & Hown & Hpos) & Hval). unfold cur_op in Ho'. rewrite Ho in Ho'.
+    inversion Ho'; subst o; clear Ho'. rewrite Hn. simpl okey. rewrite store_primary_id.
+    pose proof (TIs _ _ Hn) as TIn.
+    intros E; inversion E; subst s'; clear E. unfold with_tabs, upd_tab.
+    set (tn' := with_ctrl tn _).
+    destruct (ti_own _ _ _ TIn _ _ _ _ _ _ Hown) as (O1 & O2 & O3 & O4 & O5 & O6).
+    assert (Hli : lidx tn idx = idx) by (rewrite O2; apply lidx_idem).
+    assert (T : text tn tn').
+    { unfold tn', with_ctrl. repeat split; simpl; auto. intros p Hp. unfold upd. destruct (p =? idx) eqn:E; auto.
+      apply Z.eqb_eq in E. subst p. destruct (ti_pub _ _ _ TIn _ Hp) as (k0 & j0 & o0 & tid0 & opn0 & v0 & P1 & P2 & P3).
+      rewrite Hli, Hown in P1. inversion P1; subst. auto.
+      intros p Hp. unfold upd. destruct (p =? _); auto. right. apply chk_rng. }
+    assert (L : lext (tabs s) (set_nth n tn' (tabs s))) by (eapply lext_set; eauto).
+    apply (inv_mem s t th); auto.
+    + eapply tabs_set; eauto. unfold tn'. eapply tab_store; eauto. eapply nth_len; eauto.
+    + eapply Uniq_same; [apply length_set_nth| |apply I]. intros m u u' H1 H2.
+      rewrite (nth_error_set_nth _ _ _ _ _ Hn) in H2. destruct (Nat.eqb n m) eqn:E.
+      * apply Nat.eqb_eq in E. subst m. inversion H2; subst u'. rewrite Hn in H1. inversion H1; subst u. reflexivity.
+      * congruence.
+    + intros m tm tm' i H1 H2 H3.
+      destruct (frame_set _ _ _ tn' (fun _ => False) Hn (fun i Hv => or_introl Hv) _ _ _ _ H1 H2 H3) as [?|(_ & _ & [])]; auto.
+    + unfold TInv; simpl. exists k, v, tn', j, c. split; [exact Ho|]. split.
+      * split; [apply nth_error_set_nth_eq; eapply nth_len; eauto|]. unfold tn'; simpl. split; [auto|].
+        unfold pb; simpl. fold (pb tn k j). auto.
+      * unfold tn'; simpl. split; [auto|]. apply upd_eq.
+  - (* PStore2 *)
+    destruct TI as (k & v & tn & j & c & Ho' & (Hn & Hown & Hpos) & Hval & Hctl). unfold cur_op in Ho'. rewrite Ho in Ho'.
+    inversion Ho'; subst o; clear Ho'. rewrite Hn. simpl okey. rewrite store_mirror_id.
+    pose proof (TIs _ _ Hn) as TIn.
+    intros E; inversion E; subst s'; clear E. unfold with_tabs, upd_tab.
+    set (cl := emp_cloned_index idx (cmask tn)).
+    set (tn' := with_ctrl tn _).
+    destruct (ti_own _ _ _ TIn _ _ _ _ _ _ Hown) as (O1 & O2 & O3 & O4 & O5 & O6).
+    assert (Hr : 0 <= idx < cbcount tn) by (rewrite O2; apply lidx_range; apply TIn).
+    assert (Hli : lidx tn cl = idx) by (apply lidx_cloned; auto; apply TIn).
+    assert (T : text tn tn').
+    { unfold tn', with_ctrl. repeat split; simpl; auto. intros p Hp. unfold upd. destruct (p =? cl) eqn:E; auto.
+      apply Z.eqb_eq in E. subst p. destruct (ti_pub _ _ _ TIn _ Hp) as (k0 & j0 & o0 & tid0 & opn0 & v0 & P1 & P2 & P3).
+      rewrite Hli, Hown in P1. inversion P1; subst. auto.
+      intros p Hp. unfold upd. destruct (p =? _); auto. right. apply chk_rng. }
+    assert (L : lext (tabs s) (set_nth n tn' (tabs s))) by (eapply lext_set; eauto).
+    apply (inv_mem s t th); auto.
+    + eapply tabs_set; eauto. unfold tn'. eapply tab_store; eauto. eapply nth_len; eauto.
+    + eapply Uniq_same; [apply length_set_nth| |apply I]. intros m u u' H1 H2.
+      rewrite (nth_error_set_nth _ _ _ _ _ Hn) in H2. destruct (Nat.eqb n m) eqn:E.
+      * apply Nat.eqb_eq in E. subst m. inversion H2; subst u'. rewrite Hn in H1. inversion H1; subst u. reflexivity.
+      * congruence.
+    + intros m tm tm' i H1 H2 H3.
+      destruct (frame_set _ _ _ tn' (fun _ => False) Hn (fun i Hv => or_introl Hv) _ _ _ _ H1 H2 H3) as [?|(_ & _ & [])]; auto.
+    + unfold TInv; simpl. exists k, v, tn', j, c. split; [exact Ho|]. split.
+      * split; [apply nth_error_set_nth_eq; eapply nth_len; eauto|]. unfold tn'; simpl. split; [auto|].
+        unfold pb; simpl. fold (pb tn k j). auto.
+      * unfold tn'; simpl. split; [auto|].
+        assert (Ci : upd (cctrl tn) cl (chk k) idx = chk k).
+        { unfold upd. destruct (idx =? cl); auto. }
+        split; [auto|]. rewrite Hpos.
+        destruct (pos_cases tn (pb tn k j) c (ti_pow _ _ _ TIn) (pb_range tn k j (ti_pow _ _ _ TIn)) O1) as [Ep|Ep].
+        -- rewrite Ep, <- O2. exact Ci.
+        -- rewrite Ep, <- O2. apply upd_eq.
+  - (* PSize *)
+    destruct TI as (k & v & tn & j & c & Ho' & (Hn & Hown & Hpos) & Hval & Hctl & Hcp). unfold cur_op in Ho'. rewrite Ho in Ho'.
+    inversion Ho'; subst o; clear Ho'. rewrite Hn. simpl okey.
+    pose proof (TIs _ _ Hn) as TIn.
+    intros E; inversion E; subst s'; clear E. unfold upd_tab.
+    set (tn' := mkCT _ _ _ _ _ _).
+    assert (T : text tn tn') by (unfold tn'; repeat split; simpl; auto).
+    assert (L : lext (tabs s) (set_nth n tn' (tabs s))) by (eapply lext_set; eauto).
+    apply (inv_mem s t th); auto.
+    + eapply tabs_set; eauto. unfold tn'. eapply tab_size; eauto. eapply nth_len; eauto.
+    + eapply Uniq_same; [apply length_set_nth| |apply I]. intros m u u' H1 H2.
+      rewrite (nth_error_set_nth _ _ _ _ _ Hn) in H2. destruct (Nat.eqb n m) eqn:E.
+      * apply Nat.eqb_eq in E. subst m. inversion H2; subst u'. rewrite Hn in H1. inversion H1; subst u. reflexivity.
+      * congruence.
+    + intros m tm tm' i H1 H2 H3.
+      destruct (frame_set _ _ _ tn' (fun _ => False) Hn (fun i Hv => or_introl Hv) _ _ _ _ H1 H2 H3) as [?|(_ & _ & [])]; auto.
+    + unfold TInv, finish_op; simpl. exact Logic.I.
+  - (* PNext *)
+    destruct TI as (o' & Ho' & Hlen & Hp). same_op Ho Ho' o'.
+    destruct (negb (grow s)) eqn:Eg.
+    + intros E; inversion E; subst s'; clear E. unfold local. apply (inv_local s t th); auto. unfold TInv, finish_op; simpl. exact Logic.I.
+    + destruct (nth_error (tabs s) (S n)) as [tnx|] eqn:Enx.
+      * rewrite null_1. intros E; inversion E; subst s'; clear E. unfold local. apply (inv_local s t th); auto.
+        eapply start_ok with (o := o) (n := S n) (tn := tnx); eauto; try reflexivity.
+        intros Hf. apply before_start. auto.
+      * rewrite null_0. destruct (is_find o) eqn:Ef; intros E; inversion E; subst s'; clear E.
+        -- unfold local. apply (inv_local s t th); auto. unfold TInv, finish_op; simpl. exact Logic.I.
+        -- apply (inv_local s t th); auto. unfold TInv; simpl. exists o. split; [exact Ho|]. split; [auto|].
+           split; [destruct (grow s); auto; discriminate|]. split; auto.
+  - (* PNextCas *)
+    destruct TI as (o' & Ho' & Hf & Hg & Hlen & Hp). same_op Ho Ho' o'.
+    destruct (nth_error (tabs s) n) as [tn|] eqn:Hn; [|discriminate].
+    destruct (nth_error (tabs s) (S n)) as [tnx|] eqn:Enx; intros E; inversion E; subst s'; clear E.
+    + apply (inv_local s t th); auto.
+      eapply start_ok with (o := o) (n := S n) (tn := tnx); eauto; try reflexivity.
+      intros _. apply before_start. auto.
+    + unfold with_tabs. set (tnew := fresh_ct _).
+      assert (Hlen' : S n = length (tabs s)). { apply nth_error_None in Enx. lia. }
+      assert (L : lext (tabs s) (tabs s ++ [tnew])) by apply lext_app.
+      assert (Hnew : nth_error (tabs s ++ [tnew]) (S n) = Some tnew).
+      { rewrite nth_error_app2 by lia. rewrite Hlen', Nat.sub_diag. reflexivity. }
+      apply (inv_mem s t th); auto.
+      * intros m tm Hm. destruct (Nat.lt_ge_cases m (length (tabs s))) as [Hl|Hl].
+        -- rewrite nth_error_app1 in Hm by auto. eapply TabInv_ext_same; eauto.
+        -- rewrite nth_error_app2 in Hm by lia. destruct (m - length (tabs s))%nat eqn:Em; simpl in Hm.
+           ++ inversion Hm; subst tm. apply fresh_TabInv.
+           ++ destruct n0; discriminate.
+      * apply uniq_app; [reflexivity|apply I].
+      * intros m tm tm' i H1 H2 H3. left. rewrite nth_error_app1 in H2 by (eapply nth_len; eauto). congruence.
+      * eapply start_ok with (o := o) (n := S n) (tn := tnew); eauto; try reflexivity.
+        -- apply fresh_TabInv.
+        -- intros _. apply before_start. eapply passed_upto_ext; eauto.
+Qed.
+
+(* ================= reachable states ================= *)
+Definition Reach (cap : option Z) (g : bool) (progs : list (list op)) (s : st) : Prop :=
+  reachable st (step hash) (init cap g progs) s.
+
+Lemma init_inv cap g progs : Inv (init cap g progs).
+Proof.
+  constructor; simpl; auto.
+  - intros n tn H. destruct n; simpl in H; [|destruct n; discriminate]. inversion H; subst tn.
+    destruct cap; [apply fresh_TabInv|apply dummy_TabInv].
+  - intros t th H. apply nth_error_In in H. apply in_map_iff in H. destruct H as (p & <- & _). exact Logic.I.
+  - intros n1 t1 i1 n2 t2 i2 k j1 o1 a1 b1 j2 o2 a2 b2 H1 H2 O1 O2.
+    destruct n1; simpl in H1; [|destruct n1; discriminate]. inversion H1; subst t1. destruct cap; discriminate.
+  - discriminate.
+Qed.
+
+Lemma hc_inv cap g progs s : Reach cap g progs s -> Inv s.
+Proof.
+  apply inv_reachable; [apply init_inv|]. intros s0 t s1 I H. apply (step_inv _ _ _ I H).
+Qed.
+
+Lemma run_ext sch : forall s, Inv s -> Inv (Machine.run st (step hash) s sch) /\ lext (tabs s) (tabs (Machine.run st (step hash) s sch)).
+Proof.
+  induction sch as [|t r IH]; intros s I; simpl; [split; auto; apply lext_refl|].
+  unfold step_or_stay. destruct (step hash s t) as [s1|] eqn:E; [|apply IH; auto].
+  destruct (step_inv _ _ _ I E) as (I1 & L1). destruct (IH _ I1) as (I2 & L2). split; auto. eapply lext_trans; eauto.
+Qed.
+
+(* --- control bytes only move EMPTY -> BUSY -> tag; tags, constructed elements and claims never change; tables are
+       only appended (a torn group load is a byte-wise mix of such states) --- *)
+Lemma hc_bytes_monotone cap g progs s sch n tn : Reach cap g progs s -> nth_error (tabs s) n = Some tn ->
+  exists tn', nth_error (tabs (Machine.run st (step hash) s sch)) n = Some tn' /\ cmask tn' = cmask tn /\
+    (forall p, cctrl tn p = EMPTY_CONTROL \/ cctrl tn p = cBUSY \/ 0 <= cctrl tn p \/ cdummy tn = true) /\
+    (forall p, 0 <= cctrl tn p -> cctrl tn' p = cctrl tn p) /\
+    (forall p, cctrl tn p = cBUSY -> cctrl tn' p = cBUSY \/ 0 <= cctrl tn' p) /\
+    (forall i e, cvals tn i = Some e -> cvals tn' i = Some e).
+Proof.
+  intros R Hn. pose proof (hc_inv _ _ _ _ R) as I. destruct (run_ext sch s I) as (_ & L).
+  destruct (L _ _ Hn) as (tn' & Hn' & T1 & T2 & T3 & T4 & T5 & T6). exists tn'. repeat split; auto.
+  intros p. destruct (cdummy tn) eqn:E; [auto|]. destruct (ti_dom _ _ _ (inv_tab _ I _ _ Hn) E p) as [?|[?|?]]; auto.
+Qed.
+
+(* --- a published tag implies a constructed element of a key with that tag; no comparison ever reads raw storage;
+       no slot is constructed twice --- *)
+Lemma hc_published_constructed cap g progs s n tn p : Reach cap g progs s -> nth_error (tabs s) n = Some tn ->
+  0 <= cctrl tn p -> exists k v, cvals tn (Z.land p (cmask tn)) = Some (k, v) /\ cctrl tn p = emp_checker (hash k).
+Proof.
+  intros R Hn Hp. pose proof (hc_inv _ _ _ _ R) as I.
+  destruct (ti_pub _ _ _ (inv_tab _ I _ _ Hn) _ Hp) as (k & j & o & tid & opn & v & _ & P2 & P3). eauto.
+Qed.
+
+Lemma hc_constructed_once cap g progs s : Reach cap g progs s -> bad_read s = false /\ dbl_cons s = false.
+Proof. intros R. pose proof (hc_inv _ _ _ _ R) as I. split; apply I. Qed.
+
+(* --- a key lives in at most one slot of the whole chain --- *)
+Lemma hc_key_one_slot cap g progs s n1 t1 i1 n2 t2 i2 k v1 v2 : Reach cap g progs s ->
+  nth_error (tabs s) n1 = Some t1 -> nth_error (tabs s) n2 = Some t2 ->
+  cvals t1 i1 = Some (k, v1) -> cvals t2 i2 = Some (k, v2) -> n1 = n2 /\ i1 = i2.
+Proof.
+  intros R H1 H2 V1 V2. pose proof (hc_inv _ _ _ _ R) as I.
+  destruct (ti_val _ _ _ (inv_tab _ I _ _ H1) _ _ V1) as (j1 & o1 & a1 & b1 & O1).
+  destruct (ti_val _ _ _ (inv_tab _ I _ _ H2) _ _ V2) as (j2 & o2 & a2 & b2 & O2).
+  simpl in O1, O2. exact (inv_uniq _ I _ _ _ _ _ _ _ _ _ _ _ _ _ _ _ H1 H2 O1 O2).
+Qed.
+
+(* --- where a key lives, everything its probe looks at earlier is a full tag of another key: earlier tables of the
+       chain, earlier groups, earlier bytes of its group (so no later probe for it stops or inserts earlier) --- *)
+Lemma hc_key_position cap g progs s n tn i k v : Reach cap g progs s -> nth_error (tabs s) n = Some tn ->
+  cvals tn i = Some (k, v) ->
+  exists j o, In o offsets /\ i = Z.land (pb tn k j + o) (cmask tn) /\ emp_loop_cond (ps tn k j) (cmask tn) = true /\
+              before (tabs s) k n j o.
+Proof.
+  intros R Hn V. pose proof (hc_inv _ _ _ _ R) as I.
+  destruct (ti_val _ _ _ (inv_tab _ I _ _ Hn) _ _ V) as (j & o & a & b & O). simpl in O.
+  destruct (ti_own _ _ _ (inv_tab _ I _ _ Hn) _ _ _ _ _ _ O) as (E1 & E2 & E3 & E4 & _). exists j, o. auto.
+Qed.
+End Proofs.
